@@ -62,6 +62,7 @@ type Path struct {
 	steps     int64
 	stepBudget int64
 	goroutines int
+	prefs     []*Term // model preferences (robustness of float-enclosure models); never asserted on the path
 	obligations []*Obligation
 	covers    map[string]map[string]string // label -> model (sample)
 	observes  []string
@@ -560,6 +561,15 @@ func (p *Path) check(cond *Term, label, kind, pos string) {
 	neg := p.store.Not(cond)
 	ref := p.em.Ref(neg)
 	r, m := p.solver.CheckModel(p.varNames(), "(assert "+ref+")")
+	if r == Sat && len(p.prefs) > 0 {
+		extra := []string{"(assert " + ref + ")"}
+		for _, pr := range p.prefs {
+			extra = append(extra, "(assert "+p.em.Ref(pr)+")")
+		}
+		if r2, m2 := p.solver.CheckModel(p.varNames(), extra...); r2 == Sat {
+			m = m2
+		}
+	}
 	switch r {
 	case Unsat:
 		ob.Result = "unsat"
@@ -605,6 +615,15 @@ func (p *Path) resolveCovers() {
 		return
 	}
 	r, m := p.solver.CheckModel(p.varNames())
+	if r == Sat && len(p.prefs) > 0 {
+		var extra []string
+		for _, pr := range p.prefs {
+			extra = append(extra, "(assert "+p.em.Ref(pr)+")")
+		}
+		if r2, m2 := p.solver.CheckModel(p.varNames(), extra...); r2 == Sat {
+			m = m2
+		}
+	}
 	for _, l := range p.coverPending {
 		if r == Sat {
 			p.covers[l] = p.modelMap(m)
